@@ -1864,6 +1864,8 @@ def container_method(E, recv, name, e):
         raise OutOfSubset(f"record.{name}")
     if t == "str":
         return str_method(E, recv, name, args, e)
+    if t == "any" and ("*." + name) in E.c.externals:
+        return external_call(E, "*." + name, E.c.externals["*." + name], e, recv, args, kwargs)  # a method of an untyped object, declared by method name
     if t == "any":
         if name == "get":
             has = z3.And(recv.z != atom("{}"), recv.z != 0, z3.Function("any_has", I, I, B)(recv.z, args[0].z))
